@@ -52,6 +52,9 @@ func zzRead(a *api.ApiContext, obj interface{}) error {
 	case 2:
 		return io.EOF
 	}
+	if zzOverride != nil && zzOverride(obj) {
+		return nil
+	}
 	switch in := obj.(type) {
 	case *CreateInput:
 		in.Size = zzPick("in.size", "", "8192", "-5", "-4096", "junk", "99999999999999999999")
@@ -120,7 +123,9 @@ func zzQuery(u *url.URL) url.Values              { return url.Values{"action": {
 // the body.  The router dispatches on the URL query alone.
 var zzFormAction string
 
-// harness-chosen updatecloneinfo / setrevisioncounter bodies
+// harness-chosen request bodies
+var zzOverride func(obj interface{}) bool
+
 var (
 	zzCounterOverride bool
 	zzCounterText     string
